@@ -31,6 +31,25 @@ pub fn compare(got: &P, init: &P, want: &RefOut, rt: &RefTl, start: Option<&P>) 
     Ok(())
 }
 
+/// Assertion lines (Rust) for a generated unit test from a reference output.
+pub fn asserts_for(want: &RefOut, rt: &RefTl, start: Option<&P>) -> Vec<String> {
+    let mut v = vec![];
+    let sc = |p: &RefProp, s: Option<f64>| p.scale.max(s.map(|x| x.abs()).unwrap_or(0.0));
+    let mut one = |name: &str, rv: RV, scale: f64, int: bool, as_f64: &str| match rv {
+        RV::Val(w) => {
+            let t = tol(scale.max(w.abs()), 2.0 * scale.max(w.abs())) + if int { 0.5 } else { 0.0 };
+            v.push(format!("assert!(({as_f64} - ({w:?}f64)).abs() <= {t:e}, \"{name} = {{:?}}, reference {w:?} (tolerance {t:e})\", got.{name});"));
+        }
+        RV::Untouched => v.push(format!("assert!(format!(\"{{:?}}\", got.{name}) == format!(\"{{:?}}\", before.{name}) || got.{name} == before.{name}, \"{name} must not be touched\");")),
+        RV::Ambiguous => {}
+    };
+    one("a", want.a, sc(&rt.a, start.map(|s| s.a as f64)), false, "got.a as f64");
+    one("k", want.k, sc(&rt.k, start.map(|s| s.k as f64)), true, "got.k as f64");
+    one("d", want.d, sc(&rt.d, start.map(|s| s.d)), false, "got.d");
+    v.push("assert!(got.u.to_bits() == before.u.to_bits() && got.z.to_bits() == before.z.to_bits(), \"u/z must not be touched\");".into());
+    v
+}
+
 pub fn case_json(spec: &TlSpec, start: Option<&P>, t: f32, init: &P) -> Value {
     json!({"timeline": spec.to_json(), "start_with": start.map(|s| s.to_json()), "time": fj(t),
            "time_bits": format!("{:08x}", t.to_bits()), "target_before": init.to_json(),
